@@ -659,8 +659,18 @@ def oracle(label, desc, inst, params):
             msgs.append(f'{label}: decode then re-encode differs at byte {i} (lengths {len(b)} -> {len(b2)})')
         if back.get_bytes_length() != ln:
             msgs.append(f'{label}: decoded object reports length {back.get_bytes_length()}, the encoded one {ln}')
-        if json.dumps(canon_json(inst.to_json()), default=repr, sort_keys=True) != json.dumps(canon_json(back.to_json()), default=repr, sort_keys=True):
-            msgs.append(f'{label}: decoded object differs from the encoded one (field values)')
+        j1_, j2_ = canon_json(inst.to_json()), canon_json(back.to_json())
+        if json.dumps(j1_, default=repr, sort_keys=True) != json.dumps(j2_, default=repr, sort_keys=True):
+            # a user header may be held in structured form (e.g. the XML data content subheader) or as the raw bytes of the same field - which
+            # one the decoder produces depends on the tag the header carries by then; the two are compared by their bytes
+            for j_, o_ in ((j1_, inst), (j2_, back)):
+                for fld_ in ('UserHeader', 'ExtendedHeader'):
+                    if isinstance(j_, dict) and fld_ in j_ and getattr(o_, fld_, None) is not None and hasattr(getattr(o_, fld_), 'to_bytes'):
+                        j_[fld_] = getattr(o_, fld_).to_bytes().hex()
+            if json.dumps(j1_, default=repr, sort_keys=True) != json.dumps(j2_, default=repr, sort_keys=True):
+                dk_ = [k_ for k_ in sorted(set(j1_) | set(j2_)) if json.dumps(j1_.get(k_), default=repr, sort_keys=True) != json.dumps(j2_.get(k_), default=repr, sort_keys=True)] \
+                    if isinstance(j1_, dict) and isinstance(j2_, dict) else []
+                msgs.append(f'{label}: decoded object differs from the encoded one (field values{": " + ", ".join(dk_[:4]) if dk_ else ""})')
     except Exception as e:
         msgs.append(f'{label}: from_bytes(to_bytes(x) + trailer) raised {type(e).__name__}: {e}')
         back = None
